@@ -232,3 +232,72 @@ Proof.
   intros Hex Hnf. rewrite (process_txs_supply_exact _ _ _ _ Hg Hrun Hex _ _ _ _ _ _ _ _ _ Hf Hb2 Ep).
   rewrite (Hb3 Hnf). reflexivity.
 Qed.
+
+(* ------------------------------------------------------------------ one theorem over every block *)
+
+Local Open Scope N_scope.
+
+(* receipts' cumulative gas never decreases *)
+Fixpoint cumulative_mono (c : N) (rs : list receipt) : Prop :=
+  match rs with [] => True | r :: t => c <= r_cumulative r /\ cumulative_mono (r_cumulative r) t end.
+
+Lemma cumulative_ok_mono c rs : cumulative_ok c rs -> cumulative_mono c rs.
+Proof.
+  revert c. induction rs as [|r t IH]; intros c H; cbn [cumulative_ok cumulative_mono] in *; [exact I|].
+  destruct H as (H1 & H2). split; [lia|]. rewrite H1. apply IH, H2.
+Qed.
+
+(* the pool is the block gas limit minus the gas used so far *)
+Lemma after_txs_pool cfg num coinbase run : gas_bounded run ->
+  forall t1 idx s pool cum i si pi ci,
+  Forall (fun m => m_gas m < two64) t1 -> pool + cum < two64 ->
+  after_txs cfg num coinbase run idx s pool cum t1 = Some (i, si, pi, ci) -> pi + ci = pool + cum.
+Proof.
+  intros Hg. induction t1 as [|m rest IH]; intros idx s pool cum i si pi ci Hf Hb H; cbn [after_txs] in H.
+  - injection H as <- <- <- <-. reflexivity.
+  - destruct (apply_transaction cfg num coinbase run idx s pool cum m) as [r| |] eqn:E; try discriminate.
+    inversion Hf as [|? ? Hm Hrest]; subst.
+    destruct (gas_accounting_tx _ _ _ _ _ _ _ _ _ _ Hg Hm E) as (_ & _ & _ & _ & _ & Hu & _ & _ & Hxc & Hxp).
+    assert (Hsmall : add64 cum (t_used (x_tdb r)) = cum + t_used (x_tdb r)) by (apply add64_small; lia).
+    rewrite Hsmall in Hxc. apply IH in H; [|exact Hrest|lia]. lia.
+Qed.
+
+Theorem block_accounting cfg dealloc run s h txs uncles s' rs used :
+  gas_bounded run -> Forall (fun m => m_gas m < two64) txs -> h_gas_limit h < two64 ->
+  process cfg dealloc run s h txs uncles = BlockOk s' rs used ->
+  (* gas: the block's gas used is the sum over the receipts, each receipt's cumulative gas is the running sum
+     (hence monotone), and the total stays within the block gas limit *)
+  used = sum_gas_used rs /\ cumulative_ok 0 rs /\ cumulative_mono 0 rs /\ used <= h_gas_limit h /\ length rs = length txs /\
+  (* gas pool: before every transaction the pool holds the limit minus the gas used so far, and the
+     transaction's gas limit fits into it (the pool never goes below zero) *)
+  (forall t1 m t2, txs = t1 ++ m :: t2 ->
+     exists i si pi ci, after_txs cfg (h_number h) (h_coinbase h) run 0 (block_start cfg dealloc h s) (h_gas_limit h) 0 t1 = Some (i, si, pi, ci) /\
+                        pi + ci = h_gas_limit h /\ m_gas m <= pi) /\
+  (* rewards: applied once, after all transactions, and exactly the schedule *)
+  (exists s3, process_txs cfg (h_number h) (h_coinbase h) run 0 (block_start cfg dealloc h s) (h_gas_limit h) 0 txs [] = BlockOk s3 rs used /\
+              s' = accumulate_rewards h uncles s3 /\
+              supply s' = (supply s3 + issuance (h_number h) uncles)%Z).
+Proof.
+  intros Hg Hf Hl Hp.
+  destruct (gas_accounting_block _ _ _ _ _ _ _ _ _ _ Hg Hf Hl Hp) as (H1 & H2 & H3).
+  unfold process, pool_add_gas in Hp.
+  destruct (max_u64 - h_gas_limit h <? 0) eqn:E0; [lia|]. cbn [N.add] in Hp.
+  destruct (process_txs cfg (h_number h) (h_coinbase h) run 0 (block_start cfg dealloc h s) (h_gas_limit h) 0 txs [])
+    as [s3 rs3 u3| |] eqn:Ep; try discriminate.
+  injection Hp as <- <- <-.
+  split; [exact H1|]. split; [exact H2|]. split; [apply cumulative_ok_mono, H2|]. split; [exact H3|].
+  split; [|split].
+  - clear - Ep. assert (G : forall txs idx s pool cum acc s3 rs3 u3,
+      process_txs cfg (h_number h) (h_coinbase h) run idx s pool cum txs acc = BlockOk s3 rs3 u3 -> length rs3 = (length acc + length txs)%nat).
+    { induction txs0 as [|m rest IH]; intros idx s0 pool cum acc s4 rs4 u4 H; cbn [process_txs] in H.
+      - injection H as _ <- _. rewrite rev_length. cbn. lia.
+      - destruct (apply_transaction _ _ _ _ _ _ _ _ _) as [r| |]; try discriminate. apply IH in H. cbn [length] in *. lia. }
+    apply G in Ep. cbn in Ep. exact Ep.
+  - intros t1 m t2 ->. destruct (process_txs_prefix _ _ _ _ _ _ _ _ _ _ _ _ _ _ _ Ep) as (i & si & pi & ci & r & Ha & Hr).
+    exists i, si, pi, ci. split; [exact Ha|].
+    assert (Hf1 : Forall (fun m => m_gas m < two64) t1) by (apply Forall_app in Hf; tauto).
+    assert (Hb : h_gas_limit h + 0 < two64) by lia.
+    pose proof (after_txs_pool _ _ _ _ Hg _ _ _ _ _ _ _ _ _ Hf1 Hb Ha) as Hpool.
+    split; [lia|]. apply apply_inv in Hr. destruct Hr as (Ht & _). apply tdb_checks in Ht. tauto.
+  - exists s3. split; [reflexivity|]. split; [reflexivity|]. apply rewards_are_schedule.
+Qed.
